@@ -91,10 +91,16 @@ func (m *model) store(x, y int, r rune, comb []rune, st tcell.Style, viaFill boo
 			}
 		}
 	}
+	// storing exactly what the cell already holds is not a change ("false right after
+	// SetDirty(x,y,false) with no further change"): only a store that alters the rune,
+	// the combining runes or the style leaves the a->b->a latitude open
+	ns := mergeStyle(c.style, st)
+	if changed || ns != c.style {
+		c.touched = true
+	}
 	c.r = r
 	c.comb = append([]rune{}, comb...)
-	c.style = mergeStyle(c.style, st)
-	c.touched = true
+	c.style = ns
 }
 
 func (m *model) setDirty(x, y int, d bool) {
